@@ -240,6 +240,18 @@ impl Session {
         &mut self.rx_ctr_state
     }
 
+    /// Verification hook: `set_session_mode`.
+    #[cfg(rs_matter_verif)]
+    pub fn verif_set_session_mode(&mut self, mode: SessionMode) {
+        self.set_session_mode(mode)
+    }
+
+    /// Verification hook: `post_recv`.
+    #[cfg(rs_matter_verif)]
+    pub fn verif_post_recv(&mut self, rx_header: &PacketHdr) -> Result<bool, Error> {
+        self.post_recv(rx_header)
+    }
+
     /// Get the internal ID of the session
     /// This ID is guaranteed to be unique across all sessions
     pub const fn id(&self) -> u32 {
